@@ -162,6 +162,7 @@ struct FnStats {
     liq_shifted: AtomicU64,
     liq_slippage: AtomicU64,
     liq_fee_ok: AtomicU64,
+    est_fee_ok: AtomicU64,
     est_both_ok: AtomicU64,
     est_sdk_stricter: AtomicU64,
 }
@@ -997,6 +998,43 @@ fn chk_est(lower: i32, upper: i32, price: u128, max_a: u64, max_b: u64, st: &FnS
             _ => None,
         }
     };
+    // the quotes by ONE token amount over a mint with a (capped) transfer fee, at several slippage tolerances: the estimate is what
+    // the program debits for the quoted liquidity (its own fee-included amount), never more than the amount offered, the same
+    // whatever the tolerance, and never above the quote's maximum
+    let imgs = fee_images();
+    let tick = natural_tick(price);
+    for is_a in [true, false] {
+        let x = if is_a { max_a } else { max_b };
+        let tf = Some(sdk::TransferFee::new_with_max(imgs[0].0, imgs[0].1));
+        let mut est0: Option<u64> = None;
+        for sl in [0u16, 100, 1000] {
+            let q = sdkr(|| {
+                if is_a { sdk::increase_liquidity_quote_a(x, sl, price, lower, upper, tf, None) } else { sdk::increase_liquidity_quote_b(x, sl, price, lower, upper, None, tf) }
+                    .map(|q| (q.liquidity_delta, if is_a { q.token_est_a } else { q.token_est_b }, if is_a { q.token_max_a } else { q.token_max_b }))
+            });
+            let R::Ok((l, est, max)) = q else { continue };
+            if l == 0 || l > i128::MAX as u128 {
+                continue;
+            }
+            let pos = Position { tick_lower_index: lower, tick_upper_index: upper, ..Default::default() };
+            let R::Ok((pa, pb)) = prog_anchor(|| calculate_liquidity_token_deltas(tick, price, &pos, l as i128)) else { continue };
+            let R::Ok(want) = prog_fee_amount(&imgs[0].2, if is_a { pa } else { pb }, true) else { continue };
+            let what = format!("increase_liquidity_quote_{}({x}, slippage {sl} bps, sqrt_price {price}, range {lower}..{upper}, transfer fee {} bps max {})", if is_a { "a" } else { "b" }, imgs[0].0, imgs[0].1);
+            if est != want {
+                return Err(cls("est/transfer-fee-estimate", format!("{what}: liquidity {l}: the program debits {want} but the quote's estimate is {est}")));
+            }
+            if est > x {
+                return Err(cls("est/transfer-fee-estimate-above-offer", format!("{what}: estimate {est} exceeds the amount offered")));
+            }
+            if max < est {
+                return Err(cls("est/transfer-fee-max-below-estimate", format!("{what}: maximum {max} below the estimate {est}")));
+            }
+            if *est0.get_or_insert(est) != est {
+                return Err(cls("est/transfer-fee-estimate-depends-on-slippage", format!("{what}: estimate {est}, with tolerance 0 it is {}", est0.unwrap())));
+            }
+            inc(&st.est_fee_ok);
+        }
+    }
     match (&a, expect) {
         (R::Ok(p), Some(s)) => {
             if *p != s {
@@ -1191,7 +1229,8 @@ fn run_part2(ctx: &Ctx, r: &mut Report, st: &FnStats) {
     }
     r.set("liquidity_ranges", ranges.len() as u64);
     let lq: Vec<u128> = liq_alphabet(quick).into_iter().filter(|l| *l >= 1 && *l <= i128::MAX as u128).collect();
-    let maxes64: Vec<u64> = vec![0, 1, 2, 1000, 1_000_000_000, 1 << 32, 1 << 63, u64::MAX];
+    // (160 000 .. 166 667: around the amount at which the 300 bps fee of the quote-by-amount comparison reaches its cap of 5 000)
+    let maxes64: Vec<u64> = vec![0, 1, 2, 1000, 160_000, 166_000, 166_666, 166_667, 1_000_000_000, 1 << 32, 1 << 63, u64::MAX];
     ranges.par_iter().for_each(|(lo, hi)| {
         let (pl, pu) = (sqrt_price_from_tick_index(*lo), sqrt_price_from_tick_index(*hi));
         let mid = sqrt_price_from_tick_index(lo + (hi - lo) / 2);
@@ -1426,6 +1465,28 @@ fn worlds(thorough: bool) -> Vec<W> {
     below.push(Op::Swap { a_to_b: true, exact_in: true, amount: u64::MAX >> 8, lim: Lim::NextTick, v2: true }); // shifted onto -88, first of array -1
     let edge_roots: Vec<(&'static str, Vec<Op>)> = vec![("funded", fund_edge), ("on-last-tick-of-array", on_last), ("on-first-tick-of-array", on_first), ("shifted-onto-first-tick", below)];
     v.push(W { built: stdworlds::build_with_roots(&edge_spec, &edge_roots), kind: Kind::Std, fees: Fees::default(), depth: (1, 3), weight: 1.0 });
+    // tick spacing 4: one of the three spacings for which the lowest tick (-443636) is usable. Position 0 is bounded by it; one
+    // root sits on the minimum price (tick -443637) after a swap crossed that bound, so every upward quote has to find it again
+    {
+        let n = 88 * 4;
+        let start = MIN_TICK.div_euclid(n) * n;
+        let min_spec = world::StdSpec {
+            label: "c20-min-edge-ts4".into(),
+            tick_spacing: 4,
+            fee_rate: 3000,
+            protocol_fee_rate: 300,
+            sqrt_price: sqrt_price_from_tick_index(MIN_TICK + 40),
+            arrays: vec![(start / n, Enc::Dynamic), (start / n + 1, Enc::Fixed), (start / n + 2, Enc::Dynamic)],
+            positions: vec![(MIN_TICK, MIN_TICK + 80, false), (MIN_TICK + 16, MIN_TICK + 64, true), (MIN_TICK + 80, MIN_TICK + 400, false)],
+            t22_a: None,
+            t22_b: None,
+        };
+        let fund_min = vec![Op::Inc { pos: 0, liq: 1_000_000, v2: true }, Op::Inc { pos: 1, liq: 3_000_000, v2: false }, Op::Inc { pos: 2, liq: 2_000_000, v2: true }];
+        let mut drained = fund_min.clone();
+        drained.push(Op::Swap { a_to_b: true, exact_in: true, amount: HUGE_IN, lim: Lim::None, v2: true });
+        let min_roots: Vec<(&'static str, Vec<Op>)> = vec![("funded", fund_min), ("on-the-minimum-price", drained)];
+        v.push(W { built: stdworlds::build_with_roots(&min_spec, &min_roots), kind: Kind::Std, fees: Fees::default(), depth: (1, 2), weight: 0.5 });
+    }
     // Token-2022 transfer fees on both mints: A 1% capped at 5000 (the cap binds for the large swaps), B 2.5% uncapped
     v.push(W {
         built: stdworlds::build_with_roots(&stdworlds::t22_spec("c20-t22", 100, 5_000, 250, u64::MAX), &roots[1..3]),
@@ -1747,6 +1808,7 @@ pub fn run(ctx: &Ctx) -> Report {
         r.guard("liquidity_quote_shifted_tick_states", get(&fst.liq_shifted));
         r.guard("liquidity_quote_slippage_side", get(&fst.liq_slippage));
         r.guard("liquidity_quote_with_transfer_fee_equal", get(&fst.liq_fee_ok));
+        r.guard("liquidity_quote_by_token_amount_with_transfer_fee_equal", get(&fst.est_fee_ok));
         r.guard("liquidity_from_token_maxima_equal", get(&fst.est_both_ok));
     }
     r.sample(json!({"state_level":"every distinct state x swap alphabet","swap_alphabet":serde_json::to_value(&specs[..6]).unwrap()}));
